@@ -259,6 +259,9 @@ func init() {
 						if !c.Thorough() && t == "TEXT" && (n != 600000 || (e != "HUFFMAN" && e != "TPAQ" && e != "ANS0")) {
 							continue
 						}
+						if !c.Thorough() && n > 600000 && (e == "TPAQ" || e == "TPAQX" || e == "CM") {
+							continue
+						}
 						emit(fmtCase{P: Params{t, e, 32 << 20, 1, 32, int64(n), false}, Shape: "text", Len: n, Jobs: 1})
 					}
 				}
